@@ -138,9 +138,39 @@ def pack_type(type_ir, size_bits, ir, parent_unit, params, req):
             if size_bits is None:
                 raise Unsupported("bits field without constant size")
             bits = size_bits
-        args = " ".join(pack_expr(a, params) for a in type_ir.atomic_type.runtime_parameter)
+        args = " ".join(_pack_argument(a, rp, params)
+                        for a, rp in zip(type_ir.atomic_type.runtime_parameter, td.runtime_parameter))
         return "(struct %s %d (args %s))" % (_type_name(td), bits, args)
     raise Unsupported("type " + name)
+
+
+def _argument_range_checked():
+    """Does this header generator refuse arguments outside the declared range of their parameter
+    (proposed repair fixes/C01-argument-outside-parameter-range.patch)?  Feature detection on the
+    real back end, so that the model follows whichever code is checked out."""
+    from compiler.back_end.cpp import header_generator
+    return hasattr(header_generator, "_render_argument_range_checks")
+
+
+def _pack_argument(a, rp, params):
+    """One constructor argument.  With the range check in place the accessor treats an argument
+    outside the parameter's declared range like an unreadable one (null view): modelled as
+    `in_range ? arg : <reference to a field that does not exist>` (the latter is always unknown);
+    like the back end, only for arguments whose inferred range does not already fit."""
+    e = pack_expr(a, params)
+    if not _argument_range_checked() or a.type.which_type != "integer" or rp.type.which_type != "integer":
+        return e
+    alo, ahi = int(a.type.integer.minimum_value), int(a.type.integer.maximum_value)
+    dlo, dhi = int(rp.type.integer.minimum_value), int(rp.type.integer.maximum_value)
+    conds = []
+    if alo < dlo:
+        conds.append("(op ge %s (i %d))" % (e, dlo))
+    if ahi > dhi:
+        conds.append("(op le %s (i %d))" % (e, dhi))
+    if not conds:
+        return e
+    cond = conds[0] if len(conds) == 1 else "(op and %s %s)" % tuple(conds)
+    return "(op choice %s %s (ref $no_such_field))" % (cond, e)
 
 
 def pack_field(f, ir, unit, params):
